@@ -143,8 +143,13 @@ def register(S):
                                           "if truthy(self.authenticator) else "
                                           "same(nth_item(result, 0), sock)", P17 + ["C16"])},
                raises={"BaseException": {"props": P17, "modifies": []}}, modifies=[])
-    S.contract(F + "ThreadPoolServer._add_inactive_connection", params={"self": "obj:ThreadPoolServer", "fd": "val"}, trusted=True,
-               note="ASSUMED interface: registers the descriptor with the poll object", ensures={},
+    S.contract(F + "ThreadPoolServer._add_inactive_connection", params={"self": "obj:ThreadPoolServer", "fd": "val"}, dynamic_errors=True,
+               effects={"normal": (1, 1), "raise": (0, 1)},
+               note="registers exactly this descriptor with the poll object (for read / error / hang-up events)",
+               ensures={"registers_this_descriptor": (
+                   "n_events() == 2 and n_ev('GetAttr') == 1 and same(ev_val('GetAttr', 0, 1), self.poll_object) and "
+                   "ev_val('GetAttr', 0, 2) == 'register' and n_calls() == 1 and same(call_fn(0), ev_val('GetAttr', 0, 3)) and "
+                   "call_args(0) == cons(fd, cons('reh', nil()))", P17)},
                raises={"BaseException": {"props": P17, "modifies": []}}, modifies=[])
     S.contract(F + "ThreadPoolServer._accept_method", params={"self": "obj:ThreadPoolServer", "sock": "val"}, dynamic_errors=True,
                abstract_calls=dict(LOG, **{"'Failed to serve client for {}, caught exception'.format": "log_format"}),
